@@ -226,6 +226,33 @@ def run(ctx: Ctx) -> int:
     insts = [c for c in calls_in(ipt) if call_leaf(c) == "isinstance" and len(c.args) == 2]
     ok = len(insts) == 1 and isinstance(insts[0].args[1], ast.Name) and insts[0].args[1].id == "Path" and ctx.repo.modules["typing"].imports.get("Path", ("", ""))[0].endswith("_util")
     ctx.oblige("C19.b", ok, insts[0] if insts else ipt, "a value counts as already of a path type only if it is an instance of jsonargparse's Path" if ok else f"the 'already of this type' test of the path types is `{ast.unparse(insts[0]) if insts else '?'}`, wider than jsonargparse's Path: a pathlib.Path (default, parse_object) is accepted without any mode check and without relative/absolute bookkeeping", fn=ipt, construct="path type check")
+    # `file://...` is a local path for EVERY mode: the normalisation is not conditioned on the mode (a mode with `s`
+    # would otherwise classify a local file as an fsspec path - no overwrite check, no local mode checks)
+    from .util import guard_atoms
+
+    fsubs = [s for s in walk_local(init) if isinstance(s, ast.Assign) and isinstance(s.value, ast.Call) and call_leaf(s.value) == "sub" and "_file_scheme" in ast.unparse(s.value.func)]
+    ctx.need(fsubs, "Path.__init__: self._file_scheme.sub(...)")
+    for s in fsubs:
+        extra_g = [ast.unparse(t) for t, pol in guard_atoms(s, stop=init) if "mode" in {x.id for x in ast.walk(t) if isinstance(x, ast.Name)}]
+        ok = not extra_g
+        ctx.oblige("C19.b", ok, s, "the file:// prefix is stripped whatever the mode" if ok else f"the file:// normalisation only happens under {extra_g}: with the other modes a file:// path is taken for a remote (fsspec) path - save() then writes it through the branch without overwrite check, local mode checks are skipped", fn=init)
+    # what the Path hands out is what it checked: open() and get_content() use the resolved location
+    for mname in ("open", "get_content"):
+        pm = ctx.func(f"_util:Path.{mname}")
+        opens = [c for c in calls_in(pm) if call_leaf(c) in ("open", "get", "head") and c.args and isinstance(c.args[0], ast.Attribute) and root_name(c.args[0]) == "self"]
+        ctx.need(opens, f"Path.{mname}: open(self._absolute, ...)")
+        for c in opens:
+            ok = c.args[0].attr == "_absolute"
+            ctx.oblige("C19.b", ok, c, f"Path.{mname} uses the resolved location" if ok else f"Path.{mname} opens `{ast.unparse(c.args[0])}`: for a path that was resolved against a config file's directory (or given with cwd=, or spelt ~/...) the file opened is not the file that was checked", fn=pm)
+    # resolve_relative_path: every `..` removes the previous component
+    rrp = ctx.func("_util:resolve_relative_path")
+    pops_ = [c for c in calls_in(rrp) if call_leaf(c) == "pop"]
+    ctx.need(pops_, "resolve_relative_path: resolved.pop()")
+    for c in pops_:
+        atoms = [ast.unparse(t) for t, pol in guard_atoms(c, stop=rrp)]
+        ok = len(atoms) == 1 and "'..'" in atoms[0].replace('"', "'")
+        ctx.oblige("C19.c", ok, c, "each `..` component removes the component before it" if ok else f"the `..` step is additionally guarded by {[a for a in atoms if '..' not in a] or atoms}: a relative path that climbs to the top level of a remote location (`../data.txt` next to memory://one/config.yaml) resolves one level too deep - another file is read", fn=rrp)
+
     # what counts as absolute: an operating-system absolute path, or a URL - and a URL has `://` in it.  A bare
     # `name:` prefix is a legal relative file name (`stage:train.yaml`).  The language of the URL test is compared
     # with  .*://.*  (regular-language inclusion)
@@ -297,7 +324,8 @@ def run(ctx: Ctx) -> int:
             after = gf.reachable(starts, include_srcs=True)
             for c in calls_in(fn):
                 leaf = call_leaf(c)
-                is_cons = leaf in CONSUMERS or (leaf == "load_value" and f"{pname}.get_content()" in ast.unparse(c))
+                content_vars = {d.targets[0].id for d in walk_local(fn) if isinstance(d, ast.Assign) and isinstance(d.targets[0], ast.Name) and isinstance(d.value, ast.Call) and call_leaf(d.value) == "get_content" and root_name(d.value.func) == pname}
+                is_cons = leaf in CONSUMERS or (leaf == "load_value" and f"{pname}.get_content()" in ast.unparse(c)) or (leaf in ("_load_config_parser_mode", "load_value") and c.args and isinstance(c.args[0], ast.Name) and c.args[0].id in content_vars)
                 if not is_cons:
                     continue
                 if not (set(gf.cn(c)) & after):
@@ -365,7 +393,7 @@ def run(ctx: Ctx) -> int:
                     f"the configuration read from `{pname}` is merged inside change_to_path_dir({pname})" if ok else f"the configuration read from `{pname}` is merged outside its directory: a `key+: [relative/path]` append written in that file is adapted during the merge and resolves against the process working directory",
                     fn=fn,
                 )
-    ctx.floor("C19.c-file-merges", n_mf, 2)
+    ctx.floor("C19.c-file-merges", n_mf, 2, defer=True)  # a load moved out of the directory is reported by the consumer rule above
     # relative_path_context is change_to_path_dir(self)
     rpc = ctx.func("_util:Path.relative_path_context")
     ok = any(isinstance(it.context_expr, ast.Call) and call_leaf(it.context_expr) == "change_to_path_dir" and root_name(it.context_expr.args[0]) == "self" for w in walk_local(rpc) if isinstance(w, ast.With) for it in w.items)
